@@ -31,11 +31,13 @@ type lblOp struct {
 }
 
 type lblStructure struct {
-	ncaches []int // per name
-	kinds   [][]string
-	ops     []lblOp
-	final   []string
-	ctxMode int // context of the invalidations: 0 background, 1 cancelled, 2 SkipRead+TTL (means nothing for a delete)
+	ncaches     []int // per name
+	kinds       [][]string
+	ops         []lblOp
+	final       []string
+	ctorDeleter bool // the first cache of name "default" is given to NewInvalidationIndex instead of AddCache
+	orphan      bool // labels are also added under a cache name nobody registered a cache for (ignored by invalidations)
+	ctxMode     int  // context of the invalidations: 0 background, 1 cancelled, 2 SkipRead+TTL (means nothing for a delete)
 }
 
 var (
@@ -123,6 +125,8 @@ func drawLblStructure(c *Case) *lblStructure {
 
 	st.final = drawLabels(c, 4, 0)
 	st.ctxMode = c.Weighted("invalidate-ctx", 4, 1, 1)
+	st.ctorDeleter = c.Weighted("first-cache-via-constructor", 2, 1) == 1
+	st.orphan = c.Weighted("labels-for-a-name-without-caches", 3, 1) == 1
 
 	return st
 }
@@ -152,7 +156,10 @@ type lblWorld struct {
 
 func newLblWorld(c *Case, st *lblStructure) *lblWorld {
 	w := &lblWorld{c: c, st: st, failAt: -1, injectAt: -1, injErr: errors.New("injected delete failure")}
-	w.idx = cache.NewInvalidationIndex()
+	// the first cache of the "default" name may be handed to the constructor (what the backends' embedded
+	// indexes do with themselves), every other cache is added with AddCache
+	viaConstructor := st.ctorDeleter
+	w.idx = nil
 
 	cfg := cache.Config{ExpirationJitter: -1, DeleteExpiredJobInterval: farFuture, DeleteExpiredAfter: farFuture}
 
@@ -162,7 +169,17 @@ func newLblWorld(c *Case, st *lblStructure) *lblWorld {
 		for i := 0; i < st.ncaches[n]; i++ {
 			be := newCaseBackend(c, st.kinds[n][i], cfg)
 			row = append(row, be)
-			w.idx.AddCache(lblNames[n], faultDeleter{d: be.Deleter(), calls: &w.calls, failAt: &w.failAt, err: w.injErr, w: w})
+			fd := faultDeleter{d: be.Deleter(), calls: &w.calls, failAt: &w.failAt, err: w.injErr, w: w}
+
+			switch {
+			case w.idx == nil && viaConstructor:
+				w.idx = cache.NewInvalidationIndex(fd)
+			case w.idx == nil:
+				w.idx = cache.NewInvalidationIndex()
+				w.idx.AddCache(lblNames[n], fd)
+			default:
+				w.idx.AddCache(lblNames[n], fd)
+			}
 		}
 
 		w.caches = append(w.caches, row)
@@ -369,6 +386,12 @@ func (w *lblWorld) invalidateRelaxed(labels []string) error {
 // It returns the number of Delete calls the final invalidation issued.
 func (w *lblWorld) run(finalFail int, trace bool) int {
 	c := w.c
+
+	if w.st.orphan {
+		// nothing is registered under this name: its labels concern no cache and no invalidation
+		w.idx.AddLabels("nobody-registered-this", []byte("a"), lblLabels[0], lblLabels[1])
+		c.Class("labels-for-a-name-without-caches")
+	}
 
 	for _, op := range w.st.ops {
 		switch op.kind {
